@@ -270,11 +270,11 @@ class Layout(ShapeCastable, metaclass=ABCMeta):
         for key, field in self:
             shape = Shape.cast(field.shape)
             field_value = value[field.offset:field.offset+shape.width]
+            if shape.signed:
+                field_value = field_value.as_signed()
             if isinstance(field.shape, ShapeCastable):
                 fields[str(key)] = field.shape.format(field.shape(field_value), "")
             else:
-                if shape.signed:
-                    field_value = field_value.as_signed()
                 fields[str(key)] = Format("{}", field_value)
         return Format.Struct(value, fields)
 
@@ -853,6 +853,10 @@ class View(ValueCastable):
         # Field guarantees that the shape-castable object is well-formed, so there is no need
         # to handle erroneous cases here.
         if isinstance(shape, ShapeCastable):
+            if Shape.cast(shape).signed:
+                # The slice is unsigned; a shape-castable with a signed underlying shape (e.g.
+                # an enumeration with negative members) expects a value of that shape.
+                value = value.as_signed()
             value = shape(value)
             if not isinstance(value, (Value, ValueCastable)):
                 raise TypeError(
